@@ -62,6 +62,9 @@ Step(ln) ==
     [] ln.ev = "stuck" ->
          /\ Chk("calls never returned (connection wedged or deadlock)", FALSE)
          /\ UNCHANGED <<R, aux>>
+    [] ln.ev = "badcall" ->    \* a call whose parameters cannot be encoded: refused locally, nothing is sent, nothing changes
+         /\ Chk("a call with unencodable parameters did not fail", ln.failed)
+         /\ UNCHANGED <<R, aux>>
     [] ln.ev = "reset" ->      \* a fresh connection
          /\ R' = InitRpc /\ aux' = [handled |-> {}, creq |-> <<>>]
     [] ln.ev = "end" ->
